@@ -131,14 +131,15 @@ type SolveResult struct {
 }
 
 type Solver struct {
-	workDir  string
-	timeout  time.Duration
-	keep     bool
-	retry    bool // second, longer race before a timeout is reported
-	mu       sync.Mutex
-	wins     map[string]int
-	secs     map[string]float64
-	nQueries int
+	workDir    string
+	timeout    time.Duration
+	keep       bool
+	retry      bool          // second, longer race before a timeout is reported
+	lastChance time.Duration // >0: obligations that timed out are tried once more, alone, with this limit
+	mu         sync.Mutex
+	wins       map[string]int
+	secs       map[string]float64
+	nQueries   int
 }
 
 func newSolver(workDir string, timeout time.Duration) *Solver {
@@ -392,10 +393,14 @@ func (s *Solver) Discharge(name string, text string) SolveResult {
 	}
 	var best SolveResult
 	got := 0
+	anyTimeout := false
 	for got < len(solverCmds) {
 		rr := <-ch
 		got++
 		s.account(rr)
+		if rr.Status == "timeout" {
+			anyTimeout = true
+		}
 		if rr.Status == "unsat" {
 			best = rr
 			break
@@ -406,6 +411,10 @@ func (s *Solver) Discharge(name string, text string) SolveResult {
 		if best.Status == "" || (best.Status == "error" && rr.Status != "error") {
 			best = rr
 		}
+	}
+	if best.Status != "unsat" && best.Status != "sat" && anyTimeout {
+		// "unknown" from one solver while another ran out of time is a timeout, not an answer
+		best.Status = "timeout"
 	}
 	if best.Status == "timeout" && s.retry {
 		// slow queries are the unstable ones: before an obligation is reported as undischarged
@@ -494,11 +503,12 @@ func (e *Engine) dischargeAll(s *Solver, obls []*Obligation, workers int) []*Obl
 	covers := map[string][]*Obligation{}
 	var order []string
 	type job struct {
-		o    *Obligation
-		r    *OblResult
-		text string
+		o      *Obligation
+		r      *OblResult
+		text   string
+		failed bool
 	}
-	var jobs []job
+	var jobs []*job
 	for _, o := range obls {
 		r := byName[o.Name]
 		if r == nil {
@@ -515,7 +525,7 @@ func (e *Engine) dischargeAll(s *Solver, obls []*Obligation, workers int) []*Obl
 			covers[o.Name] = append(covers[o.Name], o)
 			continue
 		}
-		jobs = append(jobs, job{o, r, e.smtText(o.Hyps, o.Goal, false)})
+		jobs = append(jobs, &job{o: o, r: r, text: e.smtText(o.Hyps, o.Goal, false)})
 	}
 	// cover obligations: satisfied as soon as one instance is not refuted
 	type cjob struct {
@@ -541,11 +551,14 @@ func (e *Engine) dischargeAll(s *Solver, obls []*Obligation, workers int) []*Obl
 	for _, j := range jobs {
 		wg.Add(1)
 		sem <- struct{}{}
-		go func(j job) {
+		go func(j *job) {
 			defer wg.Done()
 			defer func() { <-sem }()
 			res := s.Discharge(j.o.Name, j.text)
 			mu.Lock()
+			if res.Status != "unsat" {
+				j.failed = true
+			}
 			if res.Secs > j.r.MaxSecs {
 				j.r.MaxSecs = res.Secs
 				j.r.SlowFile = res.File
@@ -587,6 +600,38 @@ func (e *Engine) dischargeAll(s *Solver, obls []*Obligation, workers int) []*Obl
 		}(cj)
 	}
 	wg.Wait()
+	// last chance for obligations that ran out of time: one at a time (the machine may have been
+	// busy with the other queries of this run, or with other checks), long limit, more seeds.
+	// At most six, so that a tree with many genuinely failing obligations is not held up.
+	if s.lastChance > 0 {
+		n := 0
+		for _, j := range jobs {
+			if n >= 6 {
+				break
+			}
+			if j.r.Status != "failed" || j.r.FailObl != j.o || j.r.Fail == nil || j.r.Fail.Status != "timeout" {
+				continue
+			}
+			n++
+			s2 := &Solver{workDir: s.workDir, timeout: s.lastChance, wins: map[string]int{}, secs: map[string]float64{}, retry: false}
+			res := s2.Discharge(j.o.Name+"_lastchance", j.text)
+			s.account(res)
+			if res.Status == "unsat" {
+				// the other path instances of this obligation were all discharged (the first failure is recorded)
+				still := false
+				for _, k := range jobs {
+					if k.r == j.r && k.o != j.o && k.failed {
+						still = true
+					}
+				}
+				if !still {
+					j.r.Status = "proved"
+					j.r.Fail, j.r.FailObl = nil, nil
+					j.r.Solver[res.Solver+" (last chance)"]++
+				}
+			}
+		}
+	}
 	sort.Strings(order)
 	out := make([]*OblResult, 0, len(order))
 	for _, n := range order {
